@@ -634,7 +634,7 @@ func init() {
 			"deep snapshots incl. spare capacity of the input, the variable value, every container constant in the instruction list and every emitted value are compared after every step, and output sequences and Marshal bytes with run 1. Cache histories: 10 regex programs whose pattern and flags come from the input x every ordered pair of 150 inputs (10 patterns, some equal to another pattern followed by flags, x 15 flag values, valid and invalid) run on one Code, the second run compared with a fresh Code. A (program, input) pair is non-trivial when the first run emits something.",
 		Assume: []string{"Go map iteration order cannot be owned by a harness: dependence on it is only re-sampled (several runs per history), not enumerated", "same-value writes are invisible to snapshots (they are C06's business)"},
 		Run:    c05Run, Replay: c05Replay,
-		QuickBudget: 150 * time.Second, ThoroughBudget: 15 * time.Minute,
+		QuickBudget: 150 * time.Second, ThoroughBudget: 8 * time.Minute,
 		HangIsViolation: true, HangLimit: 12 * time.Second,
 	})
 }
